@@ -5,6 +5,7 @@ import (
 	"fmt"
 	"sort"
 	"strings"
+	"sync"
 )
 
 // RemoteReader reads files from a PostgreSQL data directory given relative paths
@@ -14,6 +15,7 @@ type RemoteReader func(path string) ([]byte, error)
 type RemoteClient struct {
 	reader  RemoteReader
 	version int
+	mu      sync.Mutex // guards cache: a client may be used from several goroutines
 	cache   struct {
 		databases []DatabaseInfo
 		tables    map[uint32]map[uint32]TableInfo
@@ -254,6 +256,8 @@ func (c *RemoteClient) Credentials() []AuthInfo {
 }
 
 func (c *RemoteClient) Databases() []DatabaseInfo {
+	c.mu.Lock()
+	defer c.mu.Unlock()
 	if c.cache.databases != nil {
 		return c.cache.databases
 	}
@@ -300,10 +304,19 @@ func (c *RemoteClient) loadCatalog(dbOID uint32) {
 	c.cache.columns[dbOID] = ParsePGAttribute(attrData, c.version)
 }
 
-func (c *RemoteClient) Tables(dbOID uint32) []TableInfo {
+// catalog returns the cached (tables, columns) of a database, loading them first if needed.
+// The returned maps are never modified after they have been stored.
+func (c *RemoteClient) catalog(dbOID uint32) (map[uint32]TableInfo, map[uint32][]AttrInfo) {
+	c.mu.Lock()
+	defer c.mu.Unlock()
 	c.loadCatalog(dbOID)
+	return c.cache.tables[dbOID], c.cache.columns[dbOID]
+}
+
+func (c *RemoteClient) Tables(dbOID uint32) []TableInfo {
+	cached, _ := c.catalog(dbOID)
 	var tables []TableInfo
-	for _, t := range c.cache.tables[dbOID] {
+	for _, t := range cached {
 		tables = append(tables, t)
 	}
 	// filenode order (the map's key): map iteration order is random, listings and dumps must not be
@@ -336,8 +349,8 @@ func (c *RemoteClient) Table(dbOID uint32, tableName string) *TableInfo {
 }
 
 func (c *RemoteClient) Columns(dbOID, tableOID uint32) []AttrInfo {
-	c.loadCatalog(dbOID)
-	return c.cache.columns[dbOID][tableOID]
+	_, columns := c.catalog(dbOID)
+	return columns[tableOID]
 }
 
 func (c *RemoteClient) ColumnNames(dbOID, tableOID uint32) []string {
